@@ -1,6 +1,7 @@
 package ratelimiter
 
 import (
+	"sync/atomic"
 	"time"
 
 	"github.com/0xReLogic/Helios/internal/verifrt"
@@ -175,4 +176,34 @@ func VerifC09Cleanup() {
 	if present {
 		verifrt.Assert(v.(*bucket) == b && b.tokens == tok, "surviving bucket is unchanged")
 	}
+}
+
+// VerifC09Concurrent: n goroutines hit one client's bucket simultaneously.
+// existing != 0: the bucket holds t tokens; existing == 0: the client is new
+// (both first requests must share one bucket): admissions never exceed the
+// tokens available, under every interleaving.
+func VerifC09Concurrent(n int, existing int) {
+	max := 2
+	rl := verifLimiter(max, time.Second)
+	t := max
+	if existing != 0 {
+		t = verifrt.IntRange("tokens", 0, max)
+		rl.buckets.Store("c", &bucket{tokens: t, lastRefill: verifrt.Now()})
+	}
+	var admitted int32
+	for i := 0; i < n; i++ {
+		verifrt.Go(func() {
+			if rl.Allow("c") {
+				atomic.AddInt32(&admitted, 1)
+			}
+		})
+	}
+	verifrt.WaitAll()
+	got := int(atomic.LoadInt32(&admitted))
+	verifrt.Assert(got <= t, "concurrent requests never spend a token twice")
+	want := n
+	if t < n {
+		want = t
+	}
+	verifrt.Assert(got == want, "exactly min(requests, tokens) are admitted, whatever the interleaving")
 }
